@@ -56,6 +56,25 @@ class Layer:
                 "library": [l["status"], (exp or b"").decode("latin1")[:800], l.get("err", "")[:300]]})
         return out
 
+    def to_existing_file(self, what, argv, opt="-o", stdin=None):
+        """the command's own output option naming a file that already exists and is LONGER than the new output: the file
+        must end up holding exactly what the command prints on stdout."""
+        if self.failed:
+            return
+        a = cm.run_binary(self.binp, argv, stdin=stdin, timeout=60)
+        path = os.path.join(self.tmp, "existing_output.txt")
+        open(path, "wb").write(b"stale line of an earlier, longer run\n" * 40 + a[2] + a[2])
+        b = cm.run_binary(self.binp, argv + [opt, path], stdin=stdin, timeout=60)
+        self.runs += 2
+        got = open(path, "rb").read() if os.path.exists(path) else b""
+        if a[0] != "ok" or b[0] != "ok" or got != a[2]:
+            self.failed = True
+            strip = lambda av: [os.path.basename(x) if x.startswith(self.tmp) else x for x in av]
+            cm.violation(self.ctx, "failing-input", {
+                "what": "%s: %s FILE over an existing, longer file does not leave exactly the command's output in it" % (what, opt),
+                "argv": strip(argv + [opt, path]), "stdout_run": [a[0], a[2].decode("latin1")[:600]],
+                "file_after_the_run": got.decode("latin1")[:1200], "status": b[0], "stderr": b[3].decode("latin1")[-300:]})
+
     def equal_runs(self, what, argv_a, argv_b, stdin_a=None, stdin_b=None, files=None):
         """two invocations that must behave alike (same class, same bytes)."""
         if self.failed:
@@ -91,6 +110,7 @@ def snps_layer(ctx, n=2):
                 thr = rng.choice([0.0, 0.5, 1.0])
                 L.same("snps --aggregate --threshold %r" % thr, ["snps", "-r", rp, "-q", ap, "--aggregate", "--threshold", repr(thr)] + hg,
                        dict(base, aggregate=True, threshold=thr), files=[rp, ap])
+                L.to_existing_file("snps", ["snps", "-r", rp, "-q", ap] + hg)
                 op = L.W("out%d.csv" % k, b"")
                 L.equal_runs("snps -o FILE then the file's content vs stdout", ["snps", "-r", rp, "-q", ap] + hg, ["snps", "-r", rp, "-q", ap] + hg, files=[rp, ap])
                 r = cm.run_binary(L.binp, ["snps", "-r", rp, "-q", ap, "-o", op] + hg)
@@ -119,6 +139,7 @@ def updown_layer(ctx, which, n=2):
                 for data, p in ((qb, qp), (tb, tp)):
                     L.same("updown list", ["updown", "list", "-r", rp, "-q", p], {"op": "updown_list", "ref": cm.b64(refb), "aln": cm.b64(data)}, files=[rp, p])
                     L.same("updown list, query on stdin", ["updown", "list", "-r", rp], {"op": "updown_list", "ref": cm.b64(refb), "aln": cm.b64(data)}, stdin=data, files=[rp, p])
+                    L.to_existing_file("updown list", ["updown", "list", "-r", rp, "-q", p])
                 continue
             o = udgen.random_opts(rng, len(targets))
             o["ignore"] = []
@@ -140,6 +161,8 @@ def updown_layer(ctx, which, n=2):
                 flags.append("--table")
             base = dict({"op": "topranking", "ref": cm.b64(refb), "query": cm.b64(qb), "target": cm.b64(tb), "qtype": "fasta", "ttype": "fasta"}, **o)
             L.same("updown topranking (fasta/fasta)", ["updown", "topranking", "-r", rp, "-q", qp, "-t", tp] + flags, base, files=[rp, qp, tp])
+            if k == 0:
+                L.to_existing_file("updown topranking", ["updown", "topranking", "-r", rp, "-q", qp, "-t", tp] + flags)
             if eol == "\n" and ign:
                 L.same("updown topranking --ignore FILE", ["updown", "topranking", "-r", rp, "-q", qp, "-t", tp, "--ignore", ip] + flags,
                        dict(base, ignore=ign), files=[rp, qp, tp, ip])
@@ -168,6 +191,8 @@ def variants_layer(ctx, n=2):
                             "append_snps": append, "threads": 2}
                     argv = ["variants", "--msa", mp, "-r", "REF", "-a", ap] + (["--append-snps"] if append else []) + win
                     L.same("variants (%s)" % suffix, argv, base, files=[mp, ap])
+                    if k == 0 and not append:
+                        L.to_existing_file("variants", argv)
                     thr = rng.choice([0.0, 0.5])
                     L.same("variants --aggregate (%s)" % suffix, argv + ["--aggregate", "--threshold", repr(thr)], dict(base, aggregate=True, threshold=thr), files=[mp, ap])
                     # the alignment on stdin: with -r (the reference is then the first record of the stream) and without
@@ -176,6 +201,8 @@ def variants_layer(ctx, n=2):
                     mfp = L.W("mf%d.fasta" % k, msa_first)
                     a_first = ["variants", "--msa", mfp, "-r", "REF", "-a", ap] + (["--append-snps"] if append else []) + win
                     L.equal_runs("variants: the alignment on stdin equals --msa FILE (-r given)", a_first, a_first[:1] + a_first[3:], stdin_b=msa_first, files=[mfp, ap])
+                    a_agg = a_first + ["--aggregate"]
+                    L.equal_runs("variants --aggregate: the alignment on stdin equals --msa FILE (-r given)", a_agg, a_agg[:1] + a_agg[3:], stdin_b=msa_first, files=[mfp, ap])
                     if True:
                         _, rows_ni = anno.make_msa(rng, genome, rng.randint(2, 4), with_insertions=False)
                         noref = gen.layout(rng, [("q%d" % i, r) for i, r in enumerate(rows_ni)], "plain")
@@ -232,6 +259,8 @@ def sam_layer(ctx, which, n=2):
                            (["--start", str(s)] if s != -1 else []) + (["--end", str(e)] if e != -1 else [])
                     base = {"op": "toma", "sam": cm.b64(samb), "pad": pad, "wrap": wrap, "start": s, "end": e, "threads": 2}
                     L.same("sam toMultiAlign", argv, base, files=[sp])
+                    if k == 0 and not pad:
+                        L.to_existing_file("sam toMultiAlign", argv, opt="--fasta-out")
                     L.same("sam toMultiAlign, SAM on stdin", argv[:2] + argv[4:], base, stdin=samb, files=[sp])
             elif which == "topa":
                 names = [b[0]["name"] for b in samgen.blocks_of(recs)]
